@@ -70,23 +70,34 @@ theorem render_injective_S {x y : Bytes} (h : render (.s x) [83] = render (.s y)
 theorem render_injective_N {x y : Bytes} (h : render (.n x) [78] = render (.n y) [78]) : x = y := by
   simpa [render] using h
 
+theorem keyAttrValue_ok {ks : KeySchema} {attrs : List (Bytes × Bytes)} {i : Item} {f a : Bytes}
+    (h : keyAttrValue ks attrs i f = .ok a) : itemValue attrs i f = .ok a := by
+  unfold keyAttrValue at h
+  cases h1 : itemValue attrs i f with
+  | error e => simp [h1, bind, Except.bind] at h
+  | ok b =>
+    simp only [h1, bind, Except.bind] at h
+    split at h
+    · cases h
+    · simpa [pure, Except.pure] using h
+
 /-- key strings of a hash+range schema: equal strings ⇒ equal hash and range renderings -/
 theorem encode_injective (ks : KeySchema) (attrs : List (Bytes × Bytes)) (hr : ks.range ≠ []) (i j : Item) (k : Bytes)
     (hi : keyValue ks attrs i = .ok k) (hj : keyValue ks attrs j = .ok k) :
     itemValue attrs i ks.hash = itemValue attrs j ks.hash ∧ itemValue attrs i ks.range = itemValue attrs j ks.range := by
   unfold keyValue at hi hj
   have hre : ks.range.isEmpty = false := by cases h : ks.range <;> simp_all
-  cases h1 : itemValue attrs i ks.hash with
+  cases h1 : keyAttrValue ks attrs i ks.hash with
   | error e => simp [h1, bind, Except.bind] at hi
   | ok a =>
-    cases h2 : itemValue attrs j ks.hash with
+    cases h2 : keyAttrValue ks attrs j ks.hash with
     | error e => simp [h2, bind, Except.bind] at hj
     | ok a' =>
       simp only [h1, h2, hre, bind, Except.bind, Bool.false_eq_true, if_false] at hi hj
-      cases h3 : itemValue attrs i ks.range with
+      cases h3 : keyAttrValue ks attrs i ks.range with
       | error e => simp [h3] at hi
       | ok b =>
-        cases h4 : itemValue attrs j ks.range with
+        cases h4 : keyAttrValue ks attrs j ks.range with
         | error e => simp [h4] at hj
         | ok b' =>
           simp only [h3, h4, pure, Except.pure, Except.ok.injEq] at hi hj
@@ -94,21 +105,23 @@ theorem encode_injective (ks : KeySchema) (attrs : List (Bytes × Bytes)) (hr : 
             have e1 : escape a ++ [46] ++ b = k := hi
             have e2 : escape a' ++ [46] ++ b' = k := hj
             simpa using e1.trans e2.symm)
-          rw [this.1, this.2]
+          rw [keyAttrValue_ok h1, keyAttrValue_ok h2, keyAttrValue_ok h3, keyAttrValue_ok h4, this.1, this.2]
           exact ⟨rfl, rfl⟩
 
 /-- hash-only schemas: the key string is the hash rendering itself -/
 theorem encode_injective_hashonly (ks : KeySchema) (attrs : List (Bytes × Bytes)) (hr : ks.range = []) (i : Item) (k : Bytes)
     (hi : keyValue ks attrs i = .ok k) : itemValue attrs i ks.hash = .ok k := by
   unfold keyValue at hi
-  cases h1 : itemValue attrs i ks.hash with
+  cases h1 : keyAttrValue ks attrs i ks.hash with
   | error e => simp [h1, bind, Except.bind] at hi
-  | ok a => simpa [h1, hr, bind, Except.bind, pure, Except.pure] using hi
+  | ok a =>
+    have : a = k := by simpa [h1, hr, bind, Except.bind, pure, Except.pure] using hi
+    rw [← this]; exact keyAttrValue_ok h1
 
 /-- a key attribute that is missing is rejected by the primary schema … -/
 theorem missing_key_rejected (ks : KeySchema) (attrs : List (Bytes × Bytes)) (item : Item)
     (hs : ks.secondary = false) (hm : alookup ks.hash item = none) : getKey ks attrs item = .error .missing := by
-  simp [getKey, keyValue, itemValue, hm, hs, bind, Except.bind]
+  simp [getKey, keyValue, keyAttrValue, itemValue, hm, hs, bind, Except.bind]
 
 /-- … and so is one of another type than the declared one (here: declared S) -/
 theorem wrong_type_key_rejected (ks : KeySchema) (attrs : List (Bytes × Bytes)) (item : Item) (v : AV)
@@ -116,7 +129,55 @@ theorem wrong_type_key_rejected (ks : KeySchema) (attrs : List (Bytes × Bytes))
     getKey ks attrs item = .error .invalidType := by
   have : render v [83] = none := by
     cases v <;> simp_all [render]
-  simp [getKey, keyValue, itemValue, hv, hd, this, bind, Except.bind]
+  simp [getKey, keyValue, keyAttrValue, itemValue, hv, hd, this, bind, Except.bind]
+
+/-- … and so is an empty hash key value: the key string of a stored item is never empty
+    (found while proving C04: resuming from the key "" would restart the read for ever) -/
+theorem empty_key_rejected (ks : KeySchema) (attrs : List (Bytes × Bytes)) (item : Item)
+    (hs : ks.secondary = false) (hv : alookup ks.hash item = some (.s [])) (hd : alookup ks.hash attrs = some [83]) :
+    getKey ks attrs item = .error .invalidType := by
+  simp [getKey, keyValue, keyAttrValue, itemValue, hv, hd, hs, render, emptyValue, bind, Except.bind, throw, throwThe,
+    MonadExceptOf.throw, Except.pure, pure]
+
+theorem keyAttrValue_nonempty {ks : KeySchema} {attrs : List (Bytes × Bytes)} {i : Item} {f a : Bytes}
+    (hs : ks.secondary = false) (h : keyAttrValue ks attrs i f = .ok a) : a ≠ [] := by
+  unfold keyAttrValue itemValue at h
+  cases hv : alookup f i with
+  | none => simp [hv, bind, Except.bind] at h
+  | some v =>
+    simp only [hv, bind, Except.bind, hs, Bool.not_false, Bool.true_and, Option.map_some, Option.getD_some] at h
+    cases hr : render v ((alookup f attrs).getD []) with
+    | none => simp [hr] at h
+    | some s =>
+      simp only [hr] at h
+      cases he : emptyValue v with
+      | true => simp [he, throw, throwThe, MonadExceptOf.throw] at h
+      | false =>
+        simp only [he, Bool.false_eq_true, if_false, pure, Except.pure, Except.ok.injEq] at h
+        subst h
+        cases v <;> simp [render] at hr <;> simp [emptyValue] at he
+        · obtain ⟨_, rfl⟩ := hr; simpa using he
+        · obtain ⟨_, rfl⟩ := hr; simpa using he
+        · obtain ⟨_, rfl⟩ := hr; simp [renderBinary]
+
+/-- the key string of a primary key is never empty -/
+theorem key_nonempty (ks : KeySchema) (attrs : List (Bytes × Bytes)) (item : Item) (k : Bytes)
+    (hs : ks.secondary = false) (h : getKey ks attrs item = .ok k) : k ≠ [] := by
+  have hk : keyValue ks attrs item = .ok k := by
+    unfold getKey at h
+    split at h
+    · simp [hs] at h
+    · exact h
+  unfold keyValue at hk
+  cases h1 : keyAttrValue ks attrs item ks.hash with
+  | error e => simp [h1, bind, Except.bind] at hk
+  | ok a =>
+    simp only [h1, bind, Except.bind] at hk
+    split at hk
+    · simp only [pure, Except.pure, Except.ok.injEq] at hk; subst hk; exact keyAttrValue_nonempty hs h1
+    · cases h2 : keyAttrValue ks attrs item ks.range with
+      | error e => simp [h2] at hk
+      | ok b => simp only [h2, pure, Except.pure, Except.ok.injEq] at hk; subst hk; simp
 
 /-- the historic collision: ("a.b","c") and ("a","b.c") now have different key strings -/
 example : (keyValue { hash := [104], range := [114] } [([104], [83]), ([114], [83])] [([104], .s [97, 46, 98]), ([114], .s [99])]).toOption
